@@ -121,9 +121,24 @@ func openStorage(dir string, opt Options) (*storage, error) {
 	if s.log, err = log.Open(filepath.Join(dir, "log"), 0700, logOpt); err != nil {
 		return nil, err
 	}
-	if s.log.LastIndex() < s.snaps.index {
+	resetLog := s.log.LastIndex() < s.snaps.index
+	if !resetLog && s.log.Contains(s.snaps.index) {
+		// the log is kept only if it holds the snapshot's last entry
+		// (same rule as in onInstallSnapRequest)
+		data, err := s.log.Get(s.snaps.index)
+		if err != nil {
+			return nil, opError(err, "Log.Get(%d)", s.snaps.index)
+		}
+		e := &entry{}
+		if err := e.decode(bytes.NewReader(data)); err != nil {
+			return nil, opError(err, "Log.Get(%d).decode", s.snaps.index)
+		}
+		resetLog = e.term != s.snaps.term
+	}
+	if resetLog {
 		// a snapshot was installed, but the process died before the log,
-		// which ends below the snapshot, was reset. finish that now
+		// which ends below the snapshot or conflicts with it, was reset.
+		// finish that now
 		if err = s.log.Reset(s.snaps.index); err != nil {
 			return nil, opError(err, "Log.Reset(%d)", s.snaps.index)
 		}
